@@ -224,7 +224,16 @@ func zoneOf(in map[string]any) *time.Location {
 	case strings.HasPrefix(z, "fixed:"):
 		var secs int
 		fmt.Sscanf(z[6:], "%d", &secs)
-		return time.FixedZone(z, secs)
+		// the name of a fixed zone is the caller's choice: several offsets share one name, so that a
+		// zone is never identified by its name alone
+		name := "LCL"
+		switch secs {
+		case 3600, -18000:
+			name = ""
+		case 28800:
+			name = z
+		}
+		return time.FixedZone(name, secs)
 	default:
 		loc, err := time.LoadLocation(z)
 		if err != nil {
@@ -262,8 +271,16 @@ type rtCanon struct {
 	bad []string       // observations that contradict "same instant in the configured zone"
 }
 
+// sameZone: t is expressed in the configured zone (same name, and the same offset and abbreviation at that instant;
+// pointer identity is not demanded)
+func (c *rtCanon) sameZone(t time.Time) bool {
+	n1, o1 := t.Zone()
+	n2, o2 := t.In(c.loc).Zone()
+	return t.Location().String() == c.loc.String() && n1 == n2 && o1 == o2
+}
+
 func (c *rtCanon) unix(t time.Time) int64 {
-	if t.Location().String() != c.loc.String() && !t.IsZero() {
+	if !c.sameZone(t) && !t.IsZero() {
 		c.bad = append(c.bad, fmt.Sprintf("time %v is expressed in %s, not in the configured zone %s", t, t.Location(), c.loc))
 	}
 	return t.Unix()
@@ -288,9 +305,10 @@ func (c *rtCanon) tripID(id gtfs.TripID) map[string]any {
 	}
 	if id.HasStartDate {
 		t := id.StartDate
-		if t.Location().String() != c.loc.String() {
+		if !c.sameZone(t) {
 			c.bad = append(c.bad, fmt.Sprintf("start date %v is expressed in %s, not in the configured zone %s", t, t.Location(), c.loc))
 		}
+		t = t.In(c.loc)
 		y, mo, d := t.Date()
 		h, mi, s := t.Clock()
 		if h != 0 || mi != 0 || s != 0 || t.Nanosecond() != 0 {
